@@ -137,7 +137,19 @@ func loadConsts(repo string, srcs []constSrc) map[string]string {
 	return out
 }
 
-func fail(f string, a ...interface{}) { fmt.Fprintf(os.Stderr, "gotrans: "+f+"\n", a...); os.Exit(1) }
+// inTarget: a failure while one target is being translated skips that target only (its definition is missing from the
+// generated file, so exactly the proofs about it break); other failures end the run.
+var inTarget bool
+
+type targetFailure string
+
+func fail(f string, a ...interface{}) {
+	if inTarget {
+		panic(targetFailure(fmt.Sprintf(f, a...)))
+	}
+	fmt.Fprintf(os.Stderr, "gotrans: "+f+"\n", a...)
+	os.Exit(1)
+}
 
 var widths = map[string]string{
 	"uint64": "wrap_u64", "uint32": "wrap_u32", "uint16": "wrap_u16", "uint8": "wrap_u8", "uint": "wrap_u64", "byte": "wrap_u8",
@@ -608,6 +620,30 @@ func main() {
 	sb.WriteString("Fixpoint gostr_has_prefix (s p : list Z) : bool :=\n  match p, s with\n  | nil, _ => true\n  | y :: p', x :: s' => (x =? y) && gostr_has_prefix s' p'\n  | _, nil => false\n  end.\n")
 	sb.WriteString("\n")
 	for _, t := range ts {
+		sb.WriteString(translateTarget(repo, t))
+	}
+	_ = os.MkdirAll(filepath.Dir(out), 0o755)
+	if err := os.WriteFile(out, []byte(sb.String()), 0o644); err != nil {
+		fail("%v", err)
+	}
+}
+
+// one target; a failure is reported on stderr and leaves a comment instead of the definition
+func translateTarget(repo string, t target) (res string) {
+	inTarget = true
+	defer func() {
+		inTarget = false
+		if r := recover(); r != nil {
+			tf, ok := r.(targetFailure)
+			if !ok {
+				panic(r)
+			}
+			fmt.Fprintf(os.Stderr, "gotrans: target %s not translated: %s\n", t.Name, string(tf))
+			res = fmt.Sprintf("(* gotrans: target %s (%s: %s) NOT TRANSLATED from the current source: %s *)\n\n", t.Name, t.File, t.Func, strings.ReplaceAll(string(tf), "*)", "* )"))
+		}
+	}()
+	var sb strings.Builder
+	{
 		fset := token.NewFileSet()
 		f, err := parser.ParseFile(fset, filepath.Join(repo, t.File), nil, 0)
 		if err != nil {
@@ -635,7 +671,7 @@ func main() {
 		if t.Mode == "stateful" || t.Mode == "pure2" {
 			tt := t
 			sb.WriteString(translateStateful(&tt, fd, v))
-			continue
+			return sb.String()
 		}
 		var params []string
 		seen := map[string]bool{}
@@ -693,10 +729,7 @@ func main() {
 		}
 		sb.WriteString(fmt.Sprintf("(* %s: %s%s *)\nDefinition %s %s : %s :=\n  %s.\n\n", t.File, map[bool]string{true: "(" + t.Recv + ") ", false: ""}[t.Recv != ""], t.Func, t.Name, strings.Join(ps, " "), rt, body))
 	}
-	_ = os.MkdirAll(filepath.Dir(out), 0o755)
-	if err := os.WriteFile(out, []byte(sb.String()), 0o644); err != nil {
-		fail("%v", err)
-	}
+	return sb.String()
 }
 
 func sortStrings(a []string) {
